@@ -392,6 +392,9 @@ func (s *sys) snap(r *ev.Run) *snapshot {
 		}
 	}
 	err := s.db.VerifC44Dump(func(b, k, v []byte) {
+		if len(b) == 1 && b[0] == 5 {
+			return // shard info bucket (random shard ID, version): not part of the logical state
+		}
 		h.Write(b)
 		h.Write([]byte{0xfe})
 		h.Write(k)
@@ -467,6 +470,7 @@ type checker struct {
 }
 
 var allFP sync.Map
+var tNew, tClose, tDrive atomic.Int64
 
 func (c *checker) violation(fp, what string, tc tcase) {
 	if _, seen := allFP.LoadOrStore(fp, what); !seen && os.Getenv("VERIF_DEBUG") != "" {
@@ -484,14 +488,28 @@ func opIndex(name string) int {
 	return -1
 }
 
+// fingerprint: when the livelock diagnosis applies the class is the diagnosis + the failed rule (one
+// root cause, three rules); otherwise the failed rule + the structural class of the object.
+func fpOf(cause, rule, detail string) string {
+	if cause != "" {
+		return cause + rule
+	}
+	if detail == "" {
+		return rule
+	}
+	return rule + ":" + detail
+}
+
 func kindName(u *uobj) string {
 	return map[kind]string{kReg: "regular", kChild: "split-child", kTomb: "tombstone", kLock: "lock", kVirtual: "virtual-parent"}[u.k]
 }
 
 func (c *checker) run(seq []int, verbose bool) {
 	r := c.r
+	t0 := time.Now()
 	s := newSys(r)
-	defer s.close()
+	tNew.Add(int64(time.Since(t0)))
+	defer func() { t1 := time.Now(); s.close(); tClose.Add(int64(time.Since(t1))) }()
 	m := newModel()
 	tc := tcase{}
 	var obs []string
@@ -501,6 +519,8 @@ func (c *checker) run(seq []int, verbose bool) {
 	}
 	hist := strings.Join(tc.Ops, "; ")
 	// driver to quiescence
+	t2 := time.Now()
+	defer func() { tDrive.Add(int64(time.Since(t2))) }()
 	bound := 4*len(universe) + maxExp + 4
 	var prev [32]byte
 	stable := 0
@@ -534,6 +554,25 @@ func (c *checker) run(seq []int, verbose bool) {
 		c.violation("no-quiescence", fmt.Sprintf("history [%s]: the persistent state still changes after %d (epoch+1; GC pass) rounds", hist, bound), tc)
 		return
 	}
+	// diagnosis used in the fingerprints: is the next GC batch completely filled with virtual parents
+	// (IDs the metabase knows but that are not physically stored and cannot be deleted directly)?
+	cause := ""
+	if bins, err := s.db.GetGarbage(2); err == nil {
+		n, virt := 0, 0
+		for _, b := range bins {
+			for _, id := range b.Objects {
+				n++
+				for _, vn := range names {
+					if v := byName[vn]; v.k == kVirtual && v.id == id && v.cnr == b.Container {
+						virt++
+					}
+				}
+			}
+		}
+		if n > 0 && n == virt {
+			cause = "gc-batch-filled-with-undeletable-virtual-parents:"
+		}
+	}
 	// oracle at the fixpoint
 	doomedAny := false
 	var outcome []string
@@ -558,12 +597,12 @@ func (c *checker) run(seq []int, verbose bool) {
 		why := strings.Join(rs, "+")
 		outcome = append(outcome, n+":"+why)
 		if sn.blobs[n] {
-			c.violation("blob-not-removed:"+kindName(u)+":"+why,
+			c.violation(fpOf(cause, "blob-not-removed", kindName(u)+":"+why),
 				fmt.Sprintf("history [%s] (results %v): at quiescence (epoch %d, %d rounds) the blob of %s (%s; %s) is still in the blob storage; metabase keys owned by it: %v",
 					hist, obs, s.ep.v.Load(), iters, n, kindName(u), why, sn.keys[n]), tc)
 		}
 		if len(sn.keys[n]) != 0 {
-			c.violation("metadata-not-removed:"+kindName(u)+":"+why,
+			c.violation(fpOf(cause, "metadata-not-removed", kindName(u)+":"+why),
 				fmt.Sprintf("history [%s] (results %v): at quiescence (epoch %d, %d rounds) the metabase still has %v keys of %s (%s; %s); blob present: %v",
 					hist, obs, s.ep.v.Load(), iters, sn.keys[n], n, kindName(u), why, sn.blobs[n]), tc)
 		}
@@ -589,14 +628,14 @@ func (c *checker) run(seq []int, verbose bool) {
 			if m.tombed[n] {
 				why = "tombstoned"
 			}
-			c.violation("metadata-not-removed:virtual-parent:"+why,
+			c.violation(fpOf(cause, "metadata-not-removed", "virtual-parent:"+why),
 				fmt.Sprintf("history [%s] (results %v): at quiescence the metabase still has %v keys of virtual parent %s although none of its parts is left", hist, obs, sn.keys[n], n), tc)
 		}
 	}
 	for ci := range cnrs {
 		if m.rmCnr[ci] && sn.bkts[ci] {
 			doomedAny = true
-			c.violation("removed-container-still-in-metadata",
+			c.violation(fpOf(cause, "removed-container-still-in-metadata", ""),
 				fmt.Sprintf("history [%s] (results %v): container c%c was removed, at quiescence (epoch %d) its metadata bucket still exists (container GC mark present: %v)", hist, obs, 'A'+ci, s.ep.v.Load(), sn.gcMrk[ci]), tc)
 		}
 		if m.rmCnr[ci] {
@@ -686,6 +725,9 @@ func main() {
 			break
 		}
 		depthDone = d
+	}
+	if os.Getenv("VERIF_DEBUG") != "" {
+		fmt.Println("timing new/close/drive+oracle:", time.Duration(tNew.Load()), time.Duration(tClose.Load()), time.Duration(tDrive.Load()))
 	}
 	nout, nfin := 0, 0
 	c.outcomes.Range(func(_, _ any) bool { nout++; return true })
